@@ -21,6 +21,17 @@
 (*   @obligation C17.rm.balance  limit - avail = sum of n over live        *)
 (*                               holders; AllocatedObjects = #holders      *)
 (*   @obligation C17.rm.pending  PendingKeys = number of keys with waiters *)
+(*   @obligation C17.rm.grant_vs_cancel  a notification that was DELIVERED *)
+(*                               is a reservation (ANotify), whether or    *)
+(*                               not the cancel channel of the request has *)
+(*                               been closed by then; a cancelled waiter   *)
+(*                               is EITHER notified and charged OR dropped *)
+(*                               (ADrop) and never notified.  The receiver *)
+(*                               releases what it was told it holds, so    *)
+(*                               anything else breaks C17.rm.balance /     *)
+(*                               C17.rm.limit a few steps later (part B:   *)
+(*                               ToldIsHeld, GrantCancelRace; driver mode  *)
+(*                               "race")                                   *)
 (*   @obligation C17.rm.handshake every Request/Release call returns       *)
 (*                               (part B, LimitsRMProto: deadlock freedom  *)
 (*                               of the caller/manager rendezvous)         *)
@@ -63,6 +74,8 @@ AReq(r, acq) ==
 
 ARefuse == UNCHANGED avars
 
+\* @obligation C17.rm.grant_vs_cancel : no guard on canc - when the send on notifyC and the closed cancel channel are
+\* ready together the select may take the send, and then the reservation is charged like any other
 ANotify(r) ==
     /\ r \in waiters
     /\ waiters' = waiters \ {r}
